@@ -4,7 +4,7 @@
 // The probes are dispatched into a capturing socket; captured datagrams are decoded with an independent,
 // index-based RFC 791 / 792 / 768 decoder written here (never with trippy-packet getters).
 #[cfg(kani)]
-mod verif_kani_net4 {
+pub(crate) mod verif_kani_net4 {
     use super::*;
     use crate::error::IoResult;
     use crate::net::socket::{Socket, SocketError};
@@ -22,10 +22,11 @@ mod verif_kani_net4 {
         pub sends: u8,
         pub rx: [u8; CAP],
         pub rx_len: usize,
+        pub rx_addr: Option<SocketAddr>,
     }
     impl KSock {
         pub fn new() -> Self {
-            Self { sent: [0; CAP], sent_len: 0, sent_addr: None, sends: 0, rx: [0; CAP], rx_len: 0 }
+            Self { sent: [0; CAP], sent_len: 0, sent_addr: None, sends: 0, rx: [0; CAP], rx_len: 0, rx_addr: None }
         }
     }
     impl Socket for KSock {
@@ -58,7 +59,7 @@ mod verif_kani_net4 {
         fn is_writable(&mut self) -> IoResult<bool> { Ok(true) }
         fn recv_from(&mut self, buf: &mut [u8]) -> IoResult<(usize, Option<SocketAddr>)> {
             buf[..self.rx_len].copy_from_slice(&self.rx[..self.rx_len]);
-            Ok((self.rx_len, None))
+            Ok((self.rx_len, self.rx_addr))
         }
         fn read(&mut self, buf: &mut [u8]) -> IoResult<usize> {
             buf[..self.rx_len].copy_from_slice(&self.rx[..self.rx_len]);
@@ -88,7 +89,7 @@ mod verif_kani_net4 {
         }
         s as u16
     }
-    fn be16(b: &[u8], o: usize) -> u16 { (u16::from(b[o]) << 8) | u16::from(b[o + 1]) }
+    pub fn be16(b: &[u8], o: usize) -> u16 { (u16::from(b[o]) << 8) | u16::from(b[o + 1]) }
 
     fn any_cfg(protocol: Protocol, pmax: u16, pmin: u16) -> Ipv4 {
         // the datagram size is concrete per harness (symbolic sizes make CBMC's array reasoning explode on the
